@@ -103,7 +103,12 @@ class C16(Prop):
             "fmt": st.just("eblif"), "design": gen_eblif.designs(),
             "write_blackbox": st.booleans(), "cname": st.booleans(),
             "drop_type": st.one_of(st.none(), st.integers(0, 5))})
-        return st.one_of(edif, edif, ver, ebl)
+        # cross-format: a hierarchical Verilog-read netlist written as EBLIF (the writer walks the
+        # hierarchy and keeps per-run bookkeeping of what it has written)
+        cross = st.fixed_dictionaries({
+            "fmt": st.just("eblif"), "source": st.just("verilog"), "design": gen_verilog.designs(),
+            "write_blackbox": st.booleans(), "cname": st.booleans(), "drop_type": st.none()})
+        return st.one_of(edif, edif, ver, ebl, cross)
 
     def run(self, case):
         import spydrnet as sdn
@@ -148,6 +153,15 @@ class C16(Prop):
                 for k, v in (("write_blackbox", case["write_blackbox"]), ("defparam", case["defparam"]),
                              ("definition_list", bool(dl))):
                     res.label("opt-%s=%s" % (k, v))
+            elif case.get("source") == "verilog":
+                d = dict(case["design"])
+                if not gen_verilog.in_domain(d):
+                    res.label("out-of-domain")
+                    return res
+                nl = parse_text(gen_verilog.text_of(d)[0])
+                res.label("verilog-netlist-written-as-eblif")
+                kw = {"write_blackbox": case["write_blackbox"], "write_eblif_cname": case["cname"]}
+                full = False
             else:
                 d = dict(case["design"])
                 if not gen_eblif.in_domain(d):
